@@ -21,6 +21,7 @@ META = {
     'stubs': ['decimalfp.Decimal(x, precision) rounding contract (DataVolume constructor only)'],
     'assumptions': ['reference value oracle: amount * own scale walk of unit.definition'],
 }
+META['bounds'].append('portions of concrete allocations (2 amounts x 3 ratio lists x 4 receivers; enumeration) compared with symbolic quantities in 3 other units')
 
 OPS = [('lt', operator.lt), ('le', operator.le), ('eq', operator.eq),
        ('ne', operator.ne), ('ge', operator.ge), ('gt', operator.gt)]
